@@ -28,8 +28,9 @@
    Classes of matching-set errors (second component of a judgement).  The first
    four describe what lance does today (deviations from the intended meaning
    above, found by this check; see Judge):
-     and-matched-on-some-terms / indexed     AndDropsAbsentTerm: an AND match drops the terms that
-     must-not-and-matched-on-some-terms      do not occur in an index partition's vocabulary
+     and-ignored-absent-term / indexed       AndDropsAbsentTerm: an AND match drops the terms that
+     must-not-and-ignored-absent-term        do not occur in an index partition's vocabulary (recognised
+                                             when the ignored terms occur in no live indexed row)
      and-matched-on-some-terms / unindexed   FlatAndIsOr: rows of not-yet-indexed fragments are
                                              matched with OR semantics whatever the operator
      phrase-missed / unindexed               PhraseSkipsUnindexed: phrase queries only consult the index
@@ -92,6 +93,17 @@ Judge(T, ever, q, limit, R) ==
       \* matching-set errors are reported separately for rows the index covers and rows it does not
       count(d, t) == Cardinality({i \in 1..Len(d) : d[i] = t})
       repeats == \E r \in T : ~r.indexed /\ ~IsNull(r.doc) /\ (\E t \in Terms(q) : count(r.doc, t) >= 2)
+      \* AND leaves of the query and the query terms that no live row covered by the index contains
+      \* (such a term is certainly missing from the vocabulary of the index partitions)
+      andLeaves == IF Kind(q) = "match-and" THEN {q}
+                   ELSE IF q[1] = "bool" THEN {c \in SeqSet(q[2]) \cup SeqSet(q[3]) \cup SeqSet(q[4]) : Kind(c) = "match-and"}
+                   ELSE {}
+      absent == Terms(q) \ UNION {TokensOf(r.doc) : r \in {x \in T : x.indexed}}
+      \* row k matches AND leaf c once the absent terms of c are ignored (and not otherwise)
+      absentExplains(c, k) == /\ SeqSet(c[2]) \cap absent # {}
+                              /\ (SeqSet(c[2]) \ absent) \subseteq TokensOf(rowOf(k).doc)
+                              /\ SeqSet(c[2]) \ absent # {}
+                              /\ ~(SeqSet(c[2]) \subseteq TokensOf(rowOf(k).doc))
       part(S, w) == {k \in S \cap Keys(T) : rowOf(k).indexed = (w = "indexed")}
       extraClass(S, w) ==
         IF q[1] = "bool" /\ w = "unindexed" /\ repeats
@@ -100,6 +112,8 @@ Judge(T, ever, q, limit, R) ==
         ELSE IF q[1] = "bool" /\ w = "unindexed"
                 /\ (\A k \in S : \E i \in 1..Len(q[4]) : HasKind(q[4][i], "phrase") /\ Matches(q[4][i], rowOf(k).doc))
              THEN <<"must-not-phrase-missed", w>>
+        ELSE IF w = "indexed" /\ (\A k \in S : \E c \in andLeaves : absentExplains(c, k))
+             THEN <<"and-ignored-absent-term", w>>
         ELSE IF HasKind(q, "match-and") /\ (\A k \in S : TokensOf(rowOf(k).doc) \cap Terms(q) # {})
              THEN <<"and-matched-on-some-terms", w>>
         ELSE IF HasKind(q, "phrase") /\ (\A k \in S : TokensOf(rowOf(k).doc) \cap Terms(q) # {})
@@ -109,7 +123,10 @@ Judge(T, ever, q, limit, R) ==
       andOvermatch(k) == q[1] = "bool" /\ \E i \in 1..Len(q[4]) :
                             /\ Kind(q[4][i]) = "match-and" /\ ~Matches(q[4][i], rowOf(k).doc)
                             /\ TokensOf(rowOf(k).doc) \cap SeqSet(q[4][i][2]) # {}
-      missingClass(w) == IF \A k \in part(M \ ks, w) : andOvermatch(k) THEN <<"must-not-and-matched-on-some-terms", w>>
+      missingClass(w) == IF w = "indexed" /\ q[1] = "bool"
+                            /\ (\A k \in part(M \ ks, w) : \E c \in andLeaves \cap SeqSet(q[4]) : absentExplains(c, k))
+                         THEN <<"must-not-and-ignored-absent-term", w>>
+                         ELSE IF \A k \in part(M \ ks, w) : andOvermatch(k) THEN <<"must-not-and-matched-on-some-terms", w>>
                          ELSE IF HasKind(q, "phrase") THEN <<"phrase-missed", w>>
                          ELSE IF w = "unindexed" /\ repeats THEN <<"missed-beside-repeated-term", w>>
                          ELSE <<"missed-rows", w>>
